@@ -145,6 +145,22 @@ type evidence struct {
 }
 
 var propExplanation = map[string]string{}
+
+// propExplanationMore: rules added after the first rule set (each after an independently seeded change was missed)
+var propExplanationMore = map[string]string{
+	"C01": " Added: the final flush of a connection walks exactly the map that Accept fills — Append receivers come from workerMap.GetOrCreate, Close must-reaches Walk on the same immutable field, the Walk closure flushes its entry, the local map is append-only and Walk/GetOrCreate agree on it (R9); recovery is an ordinary call in Start, not a goroutine (R8).",
+	"C03": " Added: a chunk is queued still loaded only through the below-threshold edge of the window comparison, threshold at most the limit (R11); the persistent gauges move at most once per chunk event, count and bytes together (R12).",
+	"C05": " Added: recovered chunks are queued by an ordinary call in Start (not a goroutine), so Accept cannot overtake them (C01.R8).",
+	"C06": " Added: the permanent key slice is followed from GetOrCreate through every function that receives it; no element of it is ever rewritten, so identity is built from the values the record was routed by (R6).",
+	"C07": " R3 is a content taint: deep copies are identity, helpers are followed, a byte-offset cut after the cleaner re-taints.",
+	"C09": " Added: cross-record state of the parser (C15.R6) and universe-wide transient-string stores (C12.R6).",
+	"C12": " Added: universe-wide transient-string store rule over per-record code (R6); no record field aliases a long-lived scratch buffer, and per-record packages do not import unsafe outside util/strings.go (R7).",
+	"C13": " Added: cross-record state (C15.R6): timezoneCache is proved a key-determined cache; a memo must be keyed by everything its value depends on. R2 accepts a memo field that only ever holds the parser's result under err == nil.",
+	"C15": " Added (R6): every field that per-record code of the transforms and the parser both writes and reads is a key-determined cache, a whole-input memo or one of 6 reviewed items (batched counters, a scratch buffer, the documented sampling totals).",
+	"C16": " Added: index safety of the loading / verification tree itself (R5); no check receives a never-assigned (shadowed) variable that it reads (R6).",
+	"C17": " R1 also requires every call on a sink value taken from a slot to run with the lock held.",
+	"C19": " Added: the persistent-chunk gauges move at most once per chunk event (C03.R12).",
+}
 var propAssumptions = map[string][]string{}
 
 // finish prints the report, writes evidence, replay files; returns exit code
@@ -249,7 +265,7 @@ func (c *Ctx) finish(verifDir string, t0 time.Time, seed int, replayID string) i
 	}
 	sort.Strings(fnNames)
 	cov := map[string]interface{}{
-		"explanation":         propExplanation[c.Prop],
+		"explanation":         propExplanation[c.Prop] + propExplanationMore[c.Prop],
 		"obligations":         len(c.obs),
 		"discharged":          nDis + nAss,
 		"evaluations":         len(c.obs),
